@@ -13,6 +13,11 @@
 (*                            else (importers and the rest of the package keep running)       *)
 (*        "named-no-start"    reload(global_ctx=NAME) starts only NAME and NAME.* although it *)
 (*                            re-executed importers / the rest of the package as well         *)
+(*        "cfg-value-only"    the non-autoload glob apps/*/**/*.py also finds the main file    *)
+(*                            apps/APP/__init__.py of an app that has NO configuration entry   *)
+(*                            (with app_config = None), and the change detection compares only *)
+(*                            the configuration VALUES: taking away the empty entry "APP:"     *)
+(*                            (yaml None, the documentation's own form) is not noticed         *)
 (*      fl = {} is the intended mechanism; fl = CodeFlags is the pinned tree.                 *)
 (*   3. POST-CONDITION from the documentation, written declaratively (no reference to the     *)
 (*      mechanism's intermediate sets): S1 what is loaded, S2 what a reload discards and      *)
@@ -66,12 +71,27 @@ Cands(t) == CASE t = ".h" -> << [p |-> "apps/p/h.py", c |-> "apps.p.h"] >>
               [] t = "d"  -> << [p |-> "modules/d.py", c |-> "modules.d"] >>
 TargetCtx(t) == Cands(t)[1].c
 
+\* The app's configuration G (the entry pyscript: apps: p: in the yaml) - a code for every KIND of value:
+\*   0 = no entry          1 = "p:" (yaml None; the documentation's own form of an empty entry)
+\*   2 = "p: {}"           3 = "p: []"          (present, falsy, not None)
+\*   4 = "p: {v: 1}"       5 = "p: {v: 2}"      6 = "p: [{v: 1}]"  (settings; the documentation shows mappings and lists)
+\* The VALUE a loaded context carries (GlobalContext.app_config) / a discovered source carries: 0 = Python None
+\* (also every context that is not an app's main file), else the code itself.  What the script itself SEES as
+\* pyscript.app_config when it is executed: 0 = the name is not defined, else the code.
+CfgDomain == 0..6
+ValOf(g)  == IF g <= 1 THEN 0 ELSE g
+Truthy(v) == v >= 4
+SeenOf(v) == IF Truthy(v) THEN v ELSE 0                  \* global_ctx.py: "if app_config: sym_table[pyscript.app_config] = ..."
+\* the statement: the app's main file sees its current settings; for an entry without settings (None, {}, [])
+\* the documentation does not say whether the name is defined
+SeenOk(v) == IF Truthy(v) THEN {v} ELSE {0, v}
+
 \* a file: ex (exists on disk), hash (its own name starts with '#'), gen (source generation, identifies the
 \* text), mtime, imps (set of import targets in its text).  H = set of directories renamed to '#name'.
 Absent == [ex |-> FALSE, hash |-> FALSE, gen |-> 0, mtime |-> 0, imps |-> {}]
 Vis(F, H, p) == F[p].ex /\ ~F[p].hash /\ DirOf(p) \notin H
 \* a loaded context
-Unl == [path |-> "", gen |-> 0, mtime |-> 0, cfg |-> 0, imports |-> {}, inst |-> 0, started |-> FALSE]
+Unl == [path |-> "", gen |-> 0, mtime |-> 0, cfg |-> 0, seen |-> 0, imports |-> {}, inst |-> 0, started |-> FALSE]
 NoCtx == [c \in CtxNames |-> Unl]
 LoadedIn(C) == { c \in CtxNames : C[c] # Unl }
 
@@ -94,11 +114,12 @@ OverCtx(f) == ("apps.p" :> f["apps.p"]) @@ ("apps.p.h" :> f["apps.p.h"]) @@ ("fi
               @@ ("scripts.sub.t" :> f["scripts.sub.t"])
 \* glob_read_files: first matching entry per context name; gated entries need the app configuration
 NoSrc == [path |-> "", auto |-> FALSE, cfg |-> 0]
+\* (G > 0: "app_name in apps_config" - the entry exists, whatever its value)
 Discover(F, H, G) == OverCtx([c \in CtxNames |->
   LET ok == { i \in 1..Len(Entries) : Entries[i].c = c /\ Vis(F, H, Entries[i].p) /\ (Entries[i].gated => G > 0) }
   IN IF ok = {} THEN NoSrc
      ELSE LET e == Entries[CHOOSE i \in ok : \A j \in ok : i <= j]
-          IN [path |-> e.p, auto |-> e.auto, cfg |-> IF e.gated THEN G ELSE 0]])
+          IN [path |-> e.p, auto |-> e.auto, cfg |-> IF e.gated THEN ValOf(G) ELSE 0]])
 
 \* load_file / module_import.  S = [ctx, n, log]: contexts, number of source files executed so far,
 \* names of the contexts executed (in order).  A failing import leaves the importing file unloaded.
@@ -120,7 +141,7 @@ LoadFile(F, H, S, p, cfgv) ==
       S1 == [S EXCEPT !.ctx[c] = Unl]                          \* an existing context of that name is destroyed first
       r  == DoImports(F, H, S1, F[p].imps, 1, {})
   IN IF ~r.ok THEN r.S
-     ELSE [ctx |-> [r.S.ctx EXCEPT ![c] = [path |-> p, gen |-> F[p].gen, mtime |-> F[p].mtime, cfg |-> cfgv,
+     ELSE [ctx |-> [r.S.ctx EXCEPT ![c] = [path |-> p, gen |-> F[p].gen, mtime |-> F[p].mtime, cfg |-> cfgv, seen |-> SeenOf(cfgv),
                                             imports |-> r.imports, inst |-> r.S.n + 1, started |-> FALSE]],
            n |-> r.S.n + 1, log |-> Append(r.S.log, c)]
 
@@ -137,8 +158,8 @@ LoadAll(F, H, d2f, S, force, i) ==
        IF c \in force THEN LoadAll(F, H, d2f, LoadFile(F, H, S, d2f[c].path, d2f[c].cfg), force, i + 1)
        ELSE LoadAll(F, H, d2f, S, force, i + 1)
 
-AllFlags  == {"del-no-propagate", "named-no-start"}      \* deviations of the originally pinned tree (repaired since: fix commits)
-CodeFlags == {}                                          \* deviations of the mechanism of the current tree
+AllFlags  == {"del-no-propagate", "named-no-start", "cfg-value-only"}    \* deviations of the originally pinned tree
+CodeFlags == {"cfg-value-only"}                          \* deviations of the mechanism of the current tree (the others: repaired)
 \* start_global_contexts(arg): every context for "" / "*", else the named one and those whose name starts with arg + "."
 StartMatch(arg, c) == arg \in {"", "*"} \/ c = arg \/ (arg = "apps.p" /\ c = "apps.p.h") \/ (arg = "modules.m" /\ c = "modules.m.u")
 
@@ -149,6 +170,9 @@ Mechanism(F, H, G, C, n, arg, fl) ==
       inFile == { c \in CtxNames : d2f[c].path # "" }
       differs(c) == C[c].path # d2f[c].path \/ C[c].gen # F[d2f[c].path].gen           \* source text
                     \/ C[c].mtime # F[d2f[c].path].mtime \/ C[c].cfg # d2f[c].cfg
+                    \* intended: a loaded auto-loaded context (the app's main file) that is now only found by the non-autoload
+                    \* glob has lost its configuration entry
+                    \/ ("cfg-value-only" \notin fl /\ c \in AutoCtx /\ ~d2f[c].auto)
       known  == arg \in inAll \/ arg \in inFile
       del0   == IF arg = "" THEN (inAll \ inFile) \cup { c \in inAll \cap inFile : differs(c) }
                 ELSE IF arg = "*" THEN inAll
@@ -190,7 +214,7 @@ DocSource(F, H, G, c) ==
        [] c = "modules.d"     -> one("modules/d.py")
        [] c = "scripts.s"     -> one("scripts/s.py")
        [] c = "scripts.sub.t" -> one("scripts/sub/t.py")
-DocCfg(G, c) == IF c = "apps.p" THEN G ELSE 0
+DocCfg(G, c) == IF c = "apps.p" THEN ValOf(G) ELSE 0
 \* W = "world": the files, the configuration and the documented source of every context name
 World(F, H, G) == [F |-> F, G |-> G, doc |-> OverCtx([c \in CtxNames |-> DocSource(F, H, G, c)])]
 \* the file an import statement in the current sources denotes
@@ -211,6 +235,7 @@ MayLoaded(W) == LET r == AutoFiles(W) IN Closure(W, r, r)
 
 Current(W, x, c) ==                    \* context record x runs the current source of c under the documented name
   LET p == W.doc[c] IN p # "" /\ x.path = p /\ x.gen = W.F[p].gen /\ x.mtime = W.F[p].mtime /\ x.cfg = DocCfg(W.G, c)
+                /\ x.seen \in SeenOk(DocCfg(W.G, c))
 
 \* S1 (default and "*" reload): clauses, first failing one is reported
 S1Clause(W, C2) ==
